@@ -38,6 +38,7 @@ def _lib():
 # Attribute kinds
 
 SCALAR_KINDS = ["int", "str", "float", "optint", "union", "lit", "bounded", "validated"]
+EXTRA_KINDS = ["any"]  # only used by profiles that ask for it (module-bearing payloads)
 PLAIN_COLL_KINDS = ["list_int", "dict_int", "set_int"]
 SPEC_KINDS = ["leaf"]
 SPEC_COLL_KINDS = ["list_leaf", "dict_leaf", "list_kitem", "dict_kitem", "klist", "kset"]
@@ -63,6 +64,7 @@ KIND_NAMES = {
     "dict_kitem": ["kmaps"],
     "klist": ["entries"],
     "kset": ["members"],
+    "any": ["payload", "extra"],
 }
 
 FAMILY = {
@@ -126,6 +128,7 @@ FUNCS = {
 }
 
 GOOD_FNS = {
+    "any": ["ident", "tolist"],
     "int": ["inc", "neg", "zero", "ident", "dbl"],
     "str": ["bang", "a", "ident"],
     "float": ["half", "inc", "ident"],
@@ -141,6 +144,7 @@ GOOD_FNS = {
     "kitem": ["kitem_bump", "ident"],
 }
 BAD_FNS = {
+    "any": ["ident"],
     "int": ["tostr", "none", "tolist"],
     "str": ["zero", "none"],
     "float": ["tostr", "none"],
@@ -258,6 +262,13 @@ def gen_class_spec(src, profile=None):
                 a["prepare_item"] = src.choice(["ident", "dbl", "str2int"])
             else:
                 a["prepare_item"] = "ident"
+        if kind == "any":
+            # Attr(default=<value containing a module>) cannot be declared at all: the library deep-copies the
+            # Attr declaration without module protection.  Use styles that never put the value inside an Attr.
+            if a["default"][0] in ("attr", "field"):
+                a["default"][0] = "factory"
+            elif a["default"][0] == "lit" and a["flags"]:
+                a["default"][0] = "factory"
         attrs.append(a)
     names = [a["name"] for a in attrs]
     if p["allow_invalidated_by"] and len(attrs) >= 2:
@@ -354,6 +365,16 @@ def good_value(src, kind, small=False):
         return src.choice([0, 1, 10])
     if kind == "validated":
         return src.choice([0, 2, -4, 8])
+    if kind == "any":
+        return src.choice([
+            ["mod", "sys"],
+            ["list", [["mod", "sys"], ["dict", [["m", ["mod", "os"]]]]]],
+            ["dict", [["a", ["list", [["mod", "math"], ["list", [["mod", "os"]]]]]]]],
+            ["box", ["mod", "os"]],
+            ["list", [["box", ["list", [["mod", "sys"]]]], 1]],
+            ["tuple", [["mod", "math"], ["list", []]]],
+            3, "s", ["list", []], None,
+        ])
     if kind == "list_int":
         n = src.randint(0, 2 if small else 4)
         return ["list", [src.choice([0, 1, 2, 3, 1, 0]) for _ in range(n)]]
@@ -412,6 +433,8 @@ def bad_values(kind):
         return [-1, "s", None, ["float", "2.5"]]
     if kind == "validated":
         return [1, "s", None, 3]
+    if kind == "any":
+        return [["mod", "os"]]  # nothing is ill-typed for Any
     if kind == "list_int":
         return [["list", [1, "s"]], ["list", [None]], 5, ["list", [["list", [1]]]], ["dict", [["a", 1]]]]
     if kind == "dict_int":
@@ -479,6 +502,8 @@ def annotation_for(kind, classes, faults):
         return bounded(int, ge=0)
     if kind == "validated":
         return validated(make_callback(faults, "validator", is_even_int), name="Even")
+    if kind == "any":
+        return typing.Any
     if kind == "list_int":
         return List[int]
     if kind == "dict_int":
@@ -564,6 +589,10 @@ def _default_entry(default, flags, classes, faults, attr_name, prepare=None, pre
     val = default[1]
     if style == "lit" and not needs_attr:
         return build_value(val, classes, None)
+    if _has_module(val) and style in ("lit", "attr", "field"):
+        # Attr(default=<value containing a module>) cannot be declared: the library deep-copies the Attr
+        # declaration itself without module protection.  Declare it through a factory instead.
+        style = "factory"
     if style in ("lit", "attr"):
         return Attr(default=build_value(val, classes, None), **akw)
     if style in ("factory", "field_factory") or (style == "field" and isinstance(val, list)):
@@ -584,6 +613,16 @@ def _default_entry(default, flags, classes, faults, attr_name, prepare=None, pre
 _NOTHING = object()
 
 
+def _has_module(v):
+    if isinstance(v, list):
+        if v and v[0] == "mod":
+            return True
+        return any(_has_module(x) for x in v)
+    if isinstance(v, dict):
+        return any(_has_module(x) for x in v.values())
+    return False
+
+
 def make_getter(faults, pname, reads):
     def getter(self):
         faults.hit(f"getter:{pname}")
@@ -597,23 +636,29 @@ def make_getter(faults, pname, reads):
     return getter
 
 
-def _summ(v):
+def _summ(v, _d=0):
     """Pure, total summary of an attribute value used by generated property getters."""
     if isinstance(v, (int, float, str, bool)) or v is None:
         return v
+    import types as _t
+
+    if isinstance(v, _t.ModuleType):
+        return ("module", v.__name__)
+    if _d > 6 or isinstance(v, type) or callable(v):
+        return ("other", type(v).__name__)
     if isinstance(v, (list, tuple)):
-        return ("seq", len(v), tuple(_summ(e) for e in v))
+        return ("seq", len(v), tuple(_summ(e, _d + 1) for e in v))
     if isinstance(v, dict):
-        return ("map", tuple((k, _summ(x)) for k, x in v.items()))
+        return ("map", tuple((k, _summ(x, _d + 1)) for k, x in v.items()))
     if isinstance(v, (set, frozenset)):
-        return ("set", tuple(sorted(_summ(e) for e in v if isinstance(e, (int, str)))))
+        return ("set", tuple(sorted(_summ(e, _d + 1) for e in v if isinstance(e, (int, str)))))
     d = getattr(v, "__dict__", None)
     if d is not None and "_list" in d:
-        return ("klist", tuple(_summ(e) for e in d["_list"]))
+        return ("klist", tuple(_summ(e, _d + 1) for e in d["_list"]))
     if d is not None and "_dict" in d:
-        return ("kset", tuple(_summ(e) for e in d["_dict"].values()))
+        return ("kset", tuple(_summ(e, _d + 1) for e in d["_dict"].values()))
     if d is not None:
-        return ("obj", type(v).__name__, tuple((k, _summ(x)) for k, x in sorted(d.items()) if not k.startswith("__")))
+        return ("obj", type(v).__name__, tuple((k, _summ(x, _d + 1)) for k, x in sorted(d.items()) if not k.startswith("__")))
     return ("other", type(v).__name__)
 
 
